@@ -238,99 +238,10 @@ fn parse_at(cs: &[char], i: &mut usize) -> Node {
     node
 }
 
-/* ------------------------------------------------------------------ measuring (harness side, only for the skip block) */
-
-fn varint_len(n: usize) -> usize { if n < 0xfd { 1 } else if n <= 0xffff { 3 } else if n <= 0xffff_ffff { 5 } else { 9 } }
-/// minimal (MINIMALDATA) push of one element in a scriptSig
-fn ss_push_len(e: &[u8]) -> usize {
-    match e.len() {
-        0 => 1,
-        1 if (1..=16).contains(&e[0]) || e[0] == 0x81 => 1,
-        n if n < 0x4c => 1 + n,
-        n if n <= 0xff => 2 + n,
-        n => 3 + n,
-    }
-}
-fn wit_size(w: &[Vec<u8>]) -> usize { w.iter().map(|e| e.len() + varint_len(e.len())).sum() }
-fn wit_ss_size(w: &[Vec<u8>]) -> usize { w.iter().map(|e| ss_push_len(e)).sum() }
-
-/* ------------------------------------------------------------------ known-defect classes */
-
-fn any_node(n: &Node, f: &dyn Fn(&Node) -> bool) -> bool {
-    use Node::*;
-    if f(n) { return true; }
-    match n {
-        Alt(x) | Swap(x) | Check(x) | DupIf(x) | Verify(x) | NonZero(x) | ZeroNotEqual(x) => any_node(x, f),
-        AndV(a, b) | AndB(a, b) | OrB(a, b) | OrD(a, b) | OrC(a, b) | OrI(a, b) => any_node(a, f) || any_node(b, f),
-        AndOr(a, b, c) => any_node(a, f) || any_node(b, f) || any_node(c, f),
-        Thresh(_, xs) => xs.iter().any(|x| any_node(x, f)),
-        _ => false,
-    }
-}
-fn is_unc(k: &u32) -> bool { (100..200).contains(k) }
-
-/// thresh(k, ..) with k < n whose (k+1)-th largest `sat - dissat` difference of the library's own
-/// figures is negative in one of the three size fields (the `i <= k` fold then adds a negative
-/// term, see Thm/C09 `thresh_cut_negative_witness`)
-fn thresh_cut_negative<Pk: HKey9, Ctx: ScriptContext>(n: &Node) -> bool {
-    any_node(n, &|x| {
-        if let Node::Thresh(k, xs) = x {
-            if *k >= xs.len() { return false; }
-            let exts: Vec<_> = xs.iter().filter_map(|c| ast::to_ms::<Pk, Ctx>(c).ok()).map(|m| m.ext).collect();
-            for proj in 0..3 {
-                let mut d: Vec<i64> = exts.iter().filter_map(|e| match (e.sat_data, e.dissat_data) {
-                    (Some(s), Some(d)) => Some(match proj {
-                        0 => s.max_witness_stack_size as i64 - d.max_witness_stack_size as i64,
-                        1 => s.max_witness_stack_count as i64 - d.max_witness_stack_count as i64,
-                        _ => s.max_script_sig_size as i64 - d.max_script_sig_size as i64,
-                    }),
-                    _ => None,
-                }).collect();
-                d.sort();
-                d.reverse();
-                if d.iter().take(*k + 1).any(|x| *x < 0) { return true; }
-            }
-        }
-        false
-    })
-}
-
-/// thresh(k, ..) with k < n for which the library derives NO satisfaction figure (`sat_data =
-/// None`: fewer than k+1 children have one) although at least k children are satisfiable; a
-/// parent `or_*`/`andor` then takes its figure from the other branch only
-fn thresh_without_figure<Pk: HKey9, Ctx: ScriptContext>(n: &Node) -> bool {
-    any_node(n, &|x| {
-        if let Node::Thresh(k, xs) = x {
-            if *k >= xs.len() { return false; }
-            let me = match ast::to_ms::<Pk, Ctx>(x) { Ok(m) => m, Err(_) => return false };
-            let sat_children = xs.iter().filter_map(|c| ast::to_ms::<Pk, Ctx>(c).ok()).filter(|m| m.ext.sat_data.is_some()).count();
-            return me.ext.sat_data.is_none() && sat_children >= *k;
-        }
-        false
-    })
-}
-
-fn known_defect_class<Pk: HKey9, Ctx: ScriptContext>(n: &Node) -> Option<&'static str> {
-    if any_node(n, &|x| matches!(x, Node::DupIf(_))) { return Some("dupif"); }
-    if any_node(n, &|x| match x {
-        Node::PkK(k) | Node::PkH(k) => is_unc(k),
-        Node::Multi(_, v) | Node::SortedMulti(_, v) => v.iter().any(is_unc),
-        _ => false,
-    }) { return Some("uncompressed-key"); }
-    if thresh_cut_negative::<Pk, Ctx>(n) { return Some("thresh-cut"); }
-    if thresh_without_figure::<Pk, Ctx>(n) { return Some("thresh-without-figure"); }
-    None
-}
-
 /* ------------------------------------------------------------------ (b) J bound */
 
-fn ctx_script_limit(ctx: CtxK) -> usize {
-    match ctx { CtxK::Legacy => 520, CtxK::Bare => 10_000, CtxK::Segwitv0 => 3600, CtxK::Tap => 4_000_000 }
-}
-
-/// one (fragment, assets, mode, signature length) case.  `force`: emit the J line even if the
-/// script falls into a known defect class (explicit corpus).
-fn emit_bound<Pk: HKey9, Ctx: ScriptContext>(out: &mut Out, ctx: CtxK, node: &Node, assets: &Assets, mall: bool, pad: bool, force: bool)
+/// one (fragment, assets, mode, signature length) case
+fn emit_bound<Pk: HKey9, Ctx: ScriptContext>(out: &mut Out, ctx: CtxK, node: &Node, assets: &Assets, mall: bool, pad: bool)
 where for<'a> Sat9<'a>: Satisfier<Pk>
 {
     let ms: Miniscript<Pk, Ctx> = match ast::to_ms(node) { Ok(m) => m, Err(_) => return };
@@ -346,25 +257,6 @@ where for<'a> Sat9<'a>: Satisfier<Pk>
     let script = ms.encode();
     let lim = Ctx::check_local_validity(&ms).is_ok();
 
-    // ==== BEGIN KNOWN-DEFECT SKIP BLOCK ===========================================================
-    // Scripts that fall into a defect class recorded in /verif/known_findings.txt (`d:` wrapper,
-    // uncompressed keys, thresh whose (k+1)-th difference is negative) are judged only when their
-    // size figures happen to hold; the failing ones are represented by the fixed explicit corpus
-    // below (one known_findings line per corpus input).  Delete this block once the library is
-    // fixed: every generated script is then judged.
-    if !force {
-        if let Some(class) = known_defect_class::<Pk, Ctx>(node) {
-            let holds = match ms.ext.sat_data {
-                None => true,
-                Some(d) => wit.len() <= d.max_witness_stack_count
-                    && wit_size(&wit) <= d.max_witness_stack_size
-                    && (ctx == CtxK::Tap || wit_ss_size(&wit) <= d.max_script_sig_size),
-            } && script.len() <= ms.ext.pk_cost && (!lim || script.len() <= ctx_script_limit(ctx));
-            if !holds { out.count(&format!("bound: skipped known-defect class {}", class)); return; }
-            out.count(&format!("bound: judged although in class {}", class));
-        }
-    }
-    // ==== END KNOWN-DEFECT SKIP BLOCK =============================================================
 
     if ms.ext.sat_data.is_none() { out.count("bound: satisfied although sat_data = None"); }
     let (lt, sq) = msops::tx_fields(
@@ -380,13 +272,13 @@ where for<'a> Sat9<'a>: Satisfier<Pk>
     );
 }
 
-fn bound_all<Pk: HKey9, Ctx: ScriptContext>(out: &mut Out, ctx: CtxK, node: &Node, cap: usize, force: bool)
+fn bound_all<Pk: HKey9, Ctx: ScriptContext>(out: &mut Out, ctx: CtxK, node: &Node, cap: usize)
 where for<'a> Sat9<'a>: Satisfier<Pk>
 {
     for a in asset_subsets9(node, cap) {
         for mall in [false, true] {
-            emit_bound::<Pk, Ctx>(out, ctx, node, &a, mall, false, force);
-            if ctx != CtxK::Tap && !a.ecdsa.is_empty() { emit_bound::<Pk, Ctx>(out, ctx, node, &a, mall, true, force); }
+            emit_bound::<Pk, Ctx>(out, ctx, node, &a, mall, false);
+            if ctx != CtxK::Tap && !a.ecdsa.is_empty() { emit_bound::<Pk, Ctx>(out, ctx, node, &a, mall, true); }
         }
     }
 }
@@ -506,23 +398,24 @@ fn corpus() -> Vec<(&'static str, String)> {
     v
 }
 
-/// Inputs that exhibit the known defects (J lines are emitted unconditionally; each is listed in
-/// /verif/known_findings.txt).  Tags: B bare, L legacy, S segwitv0, T tap.
-fn defect_corpus() -> Vec<(&'static str, String)> {
+/// Inputs on which the figures used to undershoot before the `fix:` commits in /repo (`d:`
+/// wrapper, uncompressed keys, `thresh` taking k+1 satisfactions); kept as ordinary judged inputs.
+/// Tags: B bare, L legacy, S segwitv0, T tap.
+fn regression_corpus() -> Vec<(&'static str, String)> {
     vec![
-        // F4: cast_dupif adds +1 to the size and +2 to the count (a `d:` satisfaction is ONE element [01] of size 2)
-        ("LST", "d(v(older(1)))".into()),
-        ("S", "and_v(v(c(pk_k(K0))),d(v(older(1))))".into()),
-        // uncompressed keys: 65 used where the push is 66 bytes
-        ("L", "c(pk_h(100))".into()),
-        ("L", "c(pk_k(100))".into()),
-        ("L", "multi(1,100,K0)".into()),
-        // thresh: the fold takes k+1 satisfactions; a negative (k+1)-th difference lowers the figure
-        ("S", "thresh(1,c(pk_k(K0)),a(or_i(0,n(after(1)))),a(or_i(0,n(after(1)))))".into()),
-        ("T", "thresh(1,c(pk_k(K1)),a(or_i(0,n(after(1)))),a(or_i(0,n(after(1)))))".into()),
-        // thresh with fewer than k+1 satisfiable children has sat_data = None; the parent's figure
-        // then covers only the other branch
-        ("S", "or_d(thresh(1,and_b(c(pk_k(K0)),s(c(pk_k(K1)))),a(0)),c(pk_k(K2)))".into()),
+        ("BLST", "d(v(older(1)))".into()),
+        ("ET", "and_v(v(c(pk_k(K0))),d(v(older(1))))".into()),
+        ("ET", "or_i(d(v(after(10))),c(pk_k(K0)))".into()),
+        ("BL", "c(pk_h(100))".into()),
+        ("BL", "c(pk_k(100))".into()),
+        ("BL", "multi(1,100,K0)".into()),
+        ("BL", "and_v(v(c(pk_h(100))),multi(2,100,101,K0))".into()),
+        ("ET", "thresh(1,c(pk_k(K1)),a(or_i(0,n(after(1)))),a(or_i(0,n(after(1)))))".into()),
+        ("ET", "thresh(2,c(pk_k(K1)),a(or_i(0,n(after(1)))),a(or_i(0,n(after(1)))),s(c(pk_k(K0))))".into()),
+        ("ET", "or_d(thresh(1,and_b(c(pk_k(K0)),s(c(pk_k(K1)))),a(0)),c(pk_k(K2)))".into()),
+        ("ET", "or_d(thresh(2,and_b(c(pk_k(K0)),s(c(pk_k(K1)))),a(0),a(sha256(0))),c(pk_k(K2)))".into()),
+        ("ET", "or_b(j(c(pk_k(K0))),a(c(pk_k(K1))))".into()),
+        ("ET", "or_d(j(c(pk_k(K0))),c(pk_k(K1)))".into()),
     ]
 }
 
@@ -557,6 +450,10 @@ fn limit_corpus() -> Vec<(CtxK, String)> {
     v.push((CtxK::Tap, format!("and_v(v({}),sha256(0))", ma(996))));
     v.push((CtxK::Tap, format!("and_v(v({}),sha256(0))", ma(997))));
     v.push((CtxK::Tap, format!("and_v(v({}),and_v(v(sha256(0)),and_v(v(sha256(1)),sha256(0))))", ma(999))));
+    // thresh whose first executed child is unsatisfiable: the second child runs on top of its result
+    v.push((CtxK::Tap, format!("and_v(v(thresh(1,andor(0,1,0),s(sha256(0)))),{})", ma(996))));
+    v.push((CtxK::Tap, format!("and_v(v(thresh(1,andor(0,1,0),s(sha256(0)))),{})", ma(997))));
+    v.push((CtxK::Tap, format!("and_v(v(thresh(1,andor(0,1,0),s(sha256(0)))),{})", ma(998))));
     v
 }
 
@@ -587,11 +484,11 @@ fn ctxs_of(tag: &str) -> Vec<CtxK> {
     v
 }
 
-/// a Legacy script whose real size is 521 bytes while `pk_cost` (what
-/// `check_global_consensus_validity` compares with 520) is smaller: 7 uncompressed keys
-fn oversized_legacy() -> String {
+/// a Legacy script with 7 uncompressed keys whose size is 506 + 3 * n3 + 4 * n4 bytes
+fn near_520_legacy(n3: usize, n4: usize) -> String {
     let mut s = "older(1)".to_string();
-    for _ in 0..5 { s = format!("and_v(v(older(1)),{})", s); }
+    for _ in 0..n3 { s = format!("and_v(v(older(1)),{})", s); }
+    for _ in 0..n4 { s = format!("and_v(v(older(17)),{})", s); }
     s = format!("and_v(v(c(pk_k(0))),{})", s);
     for i in 0..7 { s = format!("and_v(v(c(pk_k({}))),{})", 100 + i % 4, s); }
     s
@@ -633,26 +530,7 @@ where for<'a> Sat9<'a>: Satisfier<Pk>
     }
 }
 
-fn desc_ms_cases(out: &mut Out, ctx: CtxK, node: &Node, cap: usize, force: bool, plan: bool) {
-    if !force {
-        // ==== KNOWN-DEFECT SKIP (descriptor level): same classes as above; delete after the fixes
-        let class = match ctx {
-            CtxK::Tap => known_defect_class::<XOnlyPublicKey, Tap>(node),
-            CtxK::Legacy => known_defect_class::<PublicKey, Legacy>(node),
-            CtxK::Bare => known_defect_class::<PublicKey, BareCtx>(node),
-            CtxK::Segwitv0 => known_defect_class::<PublicKey, Segwitv0>(node),
-        };
-        if let Some(c) = class { out.count(&format!("desc: skipped known-defect class {}", c)); return; }
-        // a tap leaf for which the library derives no figure (sat_data = None although it is
-        // satisfiable: thresh with fewer than k+1 satisfiable children) is ignored by
-        // Tr::max_weight_to_satisfy; representative in the fixed corpus
-        if ctx == CtxK::Tap {
-            if let Ok(m) = ast::to_ms::<XOnlyPublicKey, Tap>(node) {
-                if m.ext.sat_data.is_none() { out.count("desc: skipped known-defect class tr-leaf-without-figure"); return; }
-            }
-        }
-        // ==== END
-    }
+fn desc_ms_cases(out: &mut Out, ctx: CtxK, node: &Node, cap: usize, plan: bool) {
     let w = node.wire();
     let subsets = asset_subsets9(node, cap);
     match ctx {
@@ -743,7 +621,7 @@ pub fn run(out: &mut Out, thorough: bool, seed: u64) {
             with_ctx9!(ctx, static_lines(out, ctx, &t.node));
             if t.base == Base::B {
                 n_judged_scripts += 1;
-                with_ctx9!(ctx, bound_all(out, ctx, &t.node, if thorough { 64 } else { 12 }, false));
+                with_ctx9!(ctx, bound_all(out, ctx, &t.node, if thorough { 64 } else { 12 }));
                 if t.node.size() <= 6 && desc_pool.len() < 4000 { desc_pool.push((ctx, t.node.clone())); }
             }
         }
@@ -755,7 +633,7 @@ pub fn run(out: &mut Out, thorough: bool, seed: u64) {
                 n_judged_scripts += 1;
                 node.count_frags(out);
                 with_ctx9!(ctx, static_lines(out, ctx, &node));
-                with_ctx9!(ctx, bound_all(out, ctx, &node, if thorough { 12 } else { 6 }, false));
+                with_ctx9!(ctx, bound_all(out, ctx, &node, if thorough { 12 } else { 6 }));
             }
         }
     }
@@ -769,7 +647,7 @@ pub fn run(out: &mut Out, thorough: bool, seed: u64) {
             with_ctx9!(ctx, static_lines(out, ctx, &node));
             if with_ctx9!(ctx, base_of(&node)) == Some(Base::B) {
                 n_judged_scripts += 1;
-                with_ctx9!(ctx, bound_all(out, ctx, &node, if thorough { 48 } else { 16 }, false));
+                with_ctx9!(ctx, bound_all(out, ctx, &node, if thorough { 48 } else { 16 }));
                 if node.size() <= 25 { desc_pool.push((ctx, node.clone())); }
             }
         }
@@ -783,23 +661,32 @@ pub fn run(out: &mut Out, thorough: bool, seed: u64) {
         with_ctx9!(ctx, static_lines(out, ctx, &node));
         let a = Assets::full(&node);
         for mall in [false, true] {
-            with_ctx9!(ctx, emit_bound(out, ctx, &node, &a, mall, ctx != CtxK::Tap, false));
+            with_ctx9!(ctx, emit_bound(out, ctx, &node, &a, mall, ctx != CtxK::Tap));
         }
     }
-    // ---- defect corpus (judged unconditionally; listed in known_findings.txt) ---------------
-    for (tag, s) in defect_corpus() {
+    // ---- inputs that failed before the fixes ---------------------------------------------------
+    for (tag, s) in regression_corpus() {
         for ctx in ctxs_of(tag) {
             let node = parse_node(&subst(&s, ctx));
-            out.count("defect-corpus script");
+            n_static += 1;
+            out.count("regression-corpus script");
             with_ctx9!(ctx, static_lines(out, ctx, &node));
-            with_ctx9!(ctx, bound_all(out, ctx, &node, 16, true));
+            if with_ctx9!(ctx, base_of(&node)) == Some(Base::B) {
+                n_judged_scripts += 1;
+                with_ctx9!(ctx, bound_all(out, ctx, &node, 32));
+                desc_pool.push((ctx, node.clone()));
+            }
         }
     }
     {
-        let node = parse_node(&oversized_legacy());
-        static_lines::<PublicKey, Legacy>(out, CtxK::Legacy, &node);
-        let a = Assets::full(&node);
-        emit_bound::<PublicKey, Legacy>(out, CtxK::Legacy, &node, &a, false, false, true);
+        // Legacy scripts of 520 / 521 bytes with uncompressed keys (the 520-byte redeem script limit
+        // is checked against pk_cost)
+        for (n3, n4) in [(3usize, 1usize), (2, 2), (5, 0)] {   // 519, 520, 521 bytes
+            let node = parse_node(&near_520_legacy(n3, n4));
+            static_lines::<PublicKey, Legacy>(out, CtxK::Legacy, &node);
+            let a = Assets::full(&node);
+            emit_bound::<PublicKey, Legacy>(out, CtxK::Legacy, &node, &a, false, true);
+        }
     }
 
     // ---- descriptors: max_weight_to_satisfy ----------------------------------------------------
@@ -807,30 +694,27 @@ pub fn run(out: &mut Out, thorough: bool, seed: u64) {
     let step = (desc_pool.len() / n_desc).max(1);
     for (i, (ctx, node)) in desc_pool.iter().enumerate() {
         if i % step != 0 && node.size() <= 6 { continue; }
-        desc_ms_cases(out, *ctx, node, if thorough { 6 } else { 3 }, false, false);
+        desc_ms_cases(out, *ctx, node, if thorough { 6 } else { 3 }, false);
     }
     desc_key_cases(out, false);
-    // descriptor-level representatives of the known defects (listed in known_findings.txt)
-    for (ctx, s) in [(CtxK::Segwitv0, "d(v(older(1)))"), (CtxK::Legacy, "c(pk_h(100))"), (CtxK::Tap, "thresh(1,c(pk_k(200)),a(0),a(0))")] {
-        desc_ms_cases(out, ctx, &parse_node(s), 4, true, false);
-    }
+    desc_ms_cases(out, CtxK::Tap, &parse_node("thresh(1,c(pk_k(200)),a(0),a(0))"), 4, false);
 
-    // ---- plans: fixed explicit corpus only (wsh / sh plans are known findings) ---------------
+    // ---- plans: fixed explicit corpus only (wsh / sh-wsh / sh-wpkh plan sizes are known findings) -
     desc_key_cases(out, true);
     for (ctx, s) in [
         (CtxK::Bare, "c(pk_k(0))"), (CtxK::Bare, "c(pk_h(0))"), (CtxK::Bare, "multi(2,0,1,2)"),
         (CtxK::Tap, "c(pk_k(200))"), (CtxK::Tap, "and_v(v(c(pk_k(200))),sha256(0))"), (CtxK::Tap, "multi_a(2,200,201,202)"),
-        // known findings: the plan omits the witness script (wsh, sh-wsh) / the redeem script (sh)
+        // known findings: the plan omits the witness script (wsh, sh-wsh); sh-wsh / sh-wpkh scriptSig one byte short
         (CtxK::Segwitv0, "c(pk_k(0))"),
         (CtxK::Legacy, "c(pk_k(0))"), (CtxK::Legacy, "multi(2,0,1,2)"),
         (CtxK::Bare, "multi(3,0,1,2)"),
     ] {
-        desc_ms_cases(out, ctx, &parse_node(s), 1, true, true);
+        desc_ms_cases(out, ctx, &parse_node(s), 1, true);
     }
 
     out.note("distinct_nontrivial", (n_static + n_judged_scripts).to_string());
     out.note("domain", format!(
-        "{} nodes of all base types (C ext, C scriptsize): every context, quota-enumerated to depth {} + random larger + hand-written corpus (lock values at every script_num_size boundary, multi k,n around 16/17/20, multi_a n<=40, thresh n<=20 incl. unsatisfiable children, and_v chains to depth 20); {} B-typed scripts judged on every satisfaction the library produces for asset subsets x {{nonmall,mall}} x {{library-length, maximal-length (71-byte DER + sighash)}} ECDSA signatures; descriptors wsh/sh-wsh/sh/bare/tr/pkh/wpkh/sh-wpkh for max_weight_to_satisfy; plans on a fixed explicit corpus. Scripts in a known defect class (d: wrapper, uncompressed key, thresh with negative (k+1)-th difference) are judged from the generators only when their size figures hold; the failing representatives come from the fixed defect corpus listed in known_findings.txt.",
+        "{} nodes of all base types (C ext, C scriptsize): every context, quota-enumerated to depth {} + random larger + hand-written corpus (lock values at every script_num_size boundary, multi k,n around 16/17/20, multi_a n<=40, thresh n<=20 incl. unsatisfiable children, and_v chains to depth 20); {} B-typed scripts judged on every satisfaction the library produces for asset subsets x {{nonmall,mall}} x {{library-length, maximal-length (71-byte DER + sighash)}} ECDSA signatures; descriptors wsh/sh-wsh/sh/bare/tr/pkh/wpkh/sh-wpkh for max_weight_to_satisfy; plans on a fixed explicit corpus. Every generated script is judged (no class is skipped); the plan-size corpus contains the three known unfixed Plan findings (wsh, sh-wsh, sh-wpkh).",
         n_static, if thorough { 4 } else { 3 }, n_judged_scripts));
 }
 
